@@ -541,6 +541,10 @@ pub fn cap(ev: u32) {
 pub fn snap<X: Val>(ev: u32, x: &X) {
     event(ev, x.dg());
 }
+/// snapshot through a mutable borrow: the name must have been declared `let mut`
+pub fn snap_m<X: Val>(ev: u32, x: &mut X) {
+    event(ev, x.dg());
+}
 /// fold a list of digests
 pub fn dgs(ds: &[u64]) -> u64 {
     let mut h = 12u64;
